@@ -279,6 +279,31 @@ def r13_5(ctx, rep):
     element_correspondence(ctx, rep, "R13.5")
 
 
+@SPEC.rule(
+    "R13.8",
+    "tests that guard an attribute substitution are made: every CasADi predicate (is_constant, is_regular, is_symbolic, ...) whose answer "
+    "is used in model.py is called — `value.is_regular` without parentheses is a bound method and always true, so parameters without a "
+    "value (NaN) are inlined into the attribute expressions that mention them and the metadata no longer depends on what is passed in",
+)
+def r13_8(ctx, rep):
+    from ._literal import no_uncalled_predicates
+    no_uncalled_predicates(ctx, rep, "R13.8", MODEL, "the CasADi model")
+    no_uncalled_predicates(ctx, rep, "R13.8", GEN, "the CasADi generator")
+    no_uncalled_predicates(ctx, rep, "R13.8", API, "the CasADi API")
+
+
+@SPEC.rule(
+    "R13.9",
+    "modified attribute expressions are resolved where they were written: every modification argument that tree.py builds from an "
+    "existing one (also the nested `c(y(max = 3*p+1))` form for a type derived from a built-in) carries that argument's scope — otherwise "
+    "`p` is looked up in the component's class and the attribute reported for c.y.max refers to c.p",
+)
+def r13_9(ctx, rep):
+    from ..engine import run_as
+    from .c08 import r08_2
+    run_as(r08_2, "R13.9", ctx, rep)
+
+
 # -- seeded variants ---------------------------------------------------------
 @SPEC.rule(
     "R13.7",
